@@ -245,6 +245,10 @@ Definition csa_result (st : csa_state) : N :=
   else (N_of_bits (csa_sum st) + N_of_bits (csa_carry st)) mod 2 ^ N.of_nat (length (csa_sum st)).
 Definition csa_run (ops : list bits) : csa_state := fold_left csa_add ops csa_init.
 
+(* Adder<UInt>: first add() assigns, every further one is m_sum += b at the operand width *)
+Definition adder_run (w : N) (ops : list N) : N :=
+  match ops with [] => 0 | a :: r => fold_left (fun s b => (s + b) mod 2 ^ w) r a end.
+
 (* add(a, b, cin): sum = a + b + cin; cout = ((a | b) & ~sum) | (a & b) *)
 Definition addc (w a b : N) (cin : bool) : N * N :=
   let sum := (a + b + N.b2n cin) mod 2 ^ w in
@@ -371,6 +375,10 @@ Definition crc_checksum (p : crc_params) (rm : N) : N :=
   if cp_revcrc p then reflect (cp_w p) res else res.
 Definition crc_state_run (p : crc_params) (dataW : N) (words : list N) : N :=
   crc_checksum p (fold_left (crc_update p dataW) words (cp_init p)).
+
+(* update() calls with data words of different widths: (width, word) pairs *)
+Definition crc_state_run_mixed (p : crc_params) (words : list (N * N)) : N :=
+  crc_checksum p (fold_left (fun rm '(d, w) => crc_update p d rm w) words (cp_init p)).
 
 (* CrcParams::init presets, in enum order *)
 Definition crc_5_usb    := {| cp_w := 5;  cp_poly := 5;          cp_init := 31;         cp_revdata := true;  cp_revcrc := true;  cp_xorout := 31 |}.
